@@ -97,12 +97,24 @@ def extra_descriptions():
                             body=body))
 
 
+EMPTY_STYLES = [(None, None), ('', None), ('', []), ('', ()), (None, []),
+                (None, ())]
+
+
 def build(mtype, kw, exp):
     from txdbus import message as M
     ts = R.parse_sig(exp['sig'])
-    tx = [space.to_tx(t, v, 'list') for t, v in zip(ts, exp['body'])]
+    # how the caller writes the body down: lists (default), tuples,
+    # subclasses of the built-in types; an empty body as every combination
+    # of signature None / '' and body None / [] / ()
+    style = kw.get('style', 'list')
+    tx = [space.to_tx(t, v, style) for t, v in zip(ts, exp['body'])]
+    if style == 'tuple':
+        tx = tuple(tx)
     sig = exp['sig'] or None
     body = tx if exp['sig'] else None
+    if not exp['sig']:
+        sig, body = EMPTY_STYLES[kw.get('empty', 0)]
     if mtype == 1:
         return M.MethodCallMessage(kw['path'], kw['member'],
                                    interface=kw['interface'],
@@ -259,7 +271,11 @@ def check_constructed(res, mtype, kw, exp, seen_serials):
         want_fields = dict(exp['fields'])
         if exp['sig']:
             want_fields['signature'] = exp['sig']
-        if p['fields'] != want_fields:
+        got_fields = dict(p['fields'])
+        if not exp['sig'] and got_fields.get('signature') == '':
+            # an explicit empty signature says the same as none
+            del got_fields['signature']
+        if got_fields != want_fields:
             problems.append('header fields %r, expected %r'
                             % (p['fields'], want_fields))
         if p['unknown_fields']:
@@ -393,6 +409,16 @@ def _task(task):
         n += 1
         check_constructed(res, mtype, kw, exp, seen)
         res.count('nontrivial')
+        if exp['sig']:
+            if i % 3 != 2:
+                check_constructed(res, mtype, dict(
+                    kw, style=('tuple', 'subclassed')[i % 3]), exp, seen)
+        else:
+            for es in range(1, len(EMPTY_STYLES)):
+                if (i + es) % 4 == 0 or 'member' not in exp['fields'] or \
+                        len(exp['fields']['member']) == 1:
+                    check_constructed(res, mtype, dict(kw, empty=es), exp,
+                                      seen)
         if len(exp['fields']['member'] if 'member' in exp['fields']
                else 'x') > 1 and exp['type'] in (1, 4):
             continue
@@ -666,7 +692,9 @@ def run(ctx):
         'permutation (<= %d fields, rotations+reversal beyond), an unknown '
         'field code at every position - are parsed by parseMessage. Plus the'
         ' 2**27 limit at -1/0/+1/+8 bytes with real 128 MiB messages, the '
-        'reserved path and invalid names; 66000 (thorough 140000) messages '
+        'reserved path and invalid names; bodies written as lists, tuples '
+        'and subclasses of the built-in types, the empty body as every '
+        'combination of signature None / \'\' and body None / [] / (); 66000 (thorough 140000) messages '
         'built in a row, every serial fresh and non-zero. state = message description; '
         'transition = one construct/parse call'
         % (len(BODIES), 3 if ctx.quick else 4))
